@@ -17,6 +17,7 @@
 """Utilities for applying calibration solutions to visibilities and weights."""
 
 import logging
+import uuid
 
 import dask.array as da
 import numba
@@ -606,7 +607,9 @@ def calc_correction(chunks, cache, corrprods, cal_products, data_freqs,
         return final_cal_products, None
     params = CorrectionParams(inputs, input1_index, input2_index,
                               corrections, channel_maps)
-    name = 'corrections[{}]'.format(','.join(sorted(final_cal_products)))
+    # The corrections also depend on the sensor cache contents, corrprods and chunks, so make the name
+    # unique to this call, as the corrections of several data sets may well end up in the same dask graph
+    name = 'corrections[{}]-{}'.format(','.join(sorted(final_cal_products)), uuid.uuid4().hex)
     return (final_cal_products,
             da.map_blocks(_correction_block, dtype=np.complex64, chunks=chunks,
                           name=name, params=params))
